@@ -7,6 +7,7 @@ T = [
  ("C01-single-missing-semicolon", W("file","bash","i0,sl","case x in a) b ;; esac\nc\n")),
  ("C01-stale-wrotesemi-keyword", W("file","bash","i0","for i in $(a &); do b; done\n")),
  ("C01-single-heredoc-buried", W("file","bash","i0,sl","cat <<EOF\nbody\nEOF\n[[ a ]]\n")),
+ ("C01-single-heredoc-nested", W("file","bash","i0,sl","a <<EOF\nEOF\n(while b; do c; done)\n")),
  ("C01-heredoc-pipe-test-let", W("file","bash","i0,bn","cat <<EOF |\nbody\nEOF\n[[ a ]]\n")),
  ("C01-binnext-heredoc-nested", W("file","bash","i0,bn","cat <<EOF |\nbody\nEOF\n(t\n)\n")),
  ("C01-single-heredoc-in-heredoc", W("file","bash","i0,sl","cat <<A\n$(cat <<B\nr\nB\n)\nA\n")),
@@ -37,6 +38,7 @@ T = [
  ("C01-let-escaped-newline", W("file","bash","i0","let a=1+\\\n2\n")),
  ("C01-zsh-simplify-slice-modifier", W("file","zsh","i0","echo ${x:$a}\n", s=1)),
  ("C01-zsh-subshell-anon-func", W("file","zsh","i0","( () { a; } )\n")),
+ ("C01-zsh-modifier-tab", W("file","zsh","i0","${:x\t}\n")),
  ("C01-minify-empty-block", W("file","mksh","i0,mn","{ }\n")),
  ("C01-command-first-newline", W("cmd#0","bash","i0","case x in\nesac\n")),
  ("C01-zsh-dollar-hash-eof", W("word#1","zsh","i0","echo $#\n")),
